@@ -67,3 +67,12 @@ Definition ok_suffix (c : string * list suffix_call * list string) : bool :=
   list_eqb String.eqb (suffix_trajectory (class_of "responseTypeSuffix") start h) obs.
 
 Definition mismatches_suffix := mismatches ok_suffix.
+
+(** C14: observed = trace of one request. *)
+From V Require Import Model.Chain.
+
+Definition ok_chain (c : flavour * bool * list mw * option (list mw) * list event) : bool :=
+  let '(fw, ftl, ms, strict, obs) := c in
+  list_eqb event_eqb (request_trace fw ftl ms strict) obs.
+
+Definition mismatches_chain := mismatches ok_chain.
